@@ -13,7 +13,7 @@ P=$SD/patch.diff; [ -f $SD/patch_rebased.diff ] && P=$SD/patch_rebased.diff
 if ! git -C $WT apply $P 2>/dev/null; then
   if ! git -C $WT apply --3way $P >/dev/null 2>&1; then echo "$ID: patch does not apply on current HEAD" | tee -a $SD/detect.log; git -C /repo worktree remove --force $WT; exit 3; fi
 fi
-: > $SD/detect.log
+[ -n "${APPEND:-}" ] || : > $SD/detect.log
 for PROP in "$@"; do
   ( cd /verif && PYTHONPATH=$WT/src VERIF_EVID_DIR=$OUT/evidence VERIF_REPLAY_DIR=$OUT/replays timeout 3600 ./check $PROP --tier quick > $OUT/$PROP.out 2>&1; echo "exit=$?" >> $OUT/$PROP.out )
   RC=$(grep -o "exit=[0-9]*" $OUT/$PROP.out | tail -1)
